@@ -188,3 +188,58 @@ func min(a, b int) int {
 	}
 	return b
 }
+
+// CardFan draws a problem made of one or two long cardinality constraints (at least K of 6..9 literals, K in 3..4)
+// and fans of binary clauses: a trigger variable whose value falsifies several literals of a constraint at once (in
+// the order of their positions, in reverse order, or shuffled), another one that makes some of the spare literals
+// true, and a few loose binary clauses. Everything is written as constraints ("clause" / "atleast"). n <= 13.
+func CardFan(t *rapid.T) (int, []PC) {
+	n := Uniform(t, 9, 13, "n")
+	perm := rapid.Permutation(seq(1, n)).Draw(t, "vars")
+	sign := func(v int) int {
+		if rapid.Bool().Draw(t, "neg") {
+			return -v
+		}
+		return v
+	}
+	var out []PC
+	next := 0
+	take := func() int { v := perm[next%n]; next++; return v }
+	p, q := take(), take()
+	for c, nc := 0, rapid.IntRange(1, 2).Draw(t, "constraints"); c < nc; c++ {
+		k := rapid.IntRange(3, 4).Draw(t, "k")
+		ln := Uniform(t, k+3, min(k+5, n-2), "len")
+		var ls []int
+		for i := 0; i < ln; i++ {
+			ls = append(ls, sign(take()))
+		}
+		out = append(out, PC{Kind: "atleast", Lits: ls, K: k})
+		// the fan: trigger p falsifies 2..k+1 of the first k+1 literals
+		first := append([]int{}, ls[:k+1]...)
+		switch rapid.IntRange(0, 2).Draw(t, "fanOrder") {
+		case 0:
+			for i, j := 0, len(first)-1; i < j; i, j = i+1, j-1 {
+				first[i], first[j] = first[j], first[i]
+			}
+		case 1:
+			first = rapid.Permutation(first).Draw(t, "shuffled")
+		}
+		trig := p
+		if c == 1 && rapid.Bool().Draw(t, "otherTrigger") {
+			trig = -p
+		}
+		for _, l := range first[:Uniform(t, 2, len(first), "fanWidth")] {
+			out = append(out, PC{Kind: "clause", Lits: []int{trig, -l}})
+		}
+		// q makes some spare literals true
+		for _, l := range ls[k+1:] {
+			if rapid.Bool().Draw(t, "spare") {
+				out = append(out, PC{Kind: "clause", Lits: []int{q, l}})
+			}
+		}
+	}
+	for i, m := 0, rapid.IntRange(0, 4).Draw(t, "loose"); i < m; i++ {
+		out = append(out, PC{Kind: "clause", Lits: DistinctLits(t, n, 2, "b")})
+	}
+	return n, out
+}
